@@ -91,6 +91,19 @@ NEEDS = {
     "seed_C17f": ("C17", "a particle whose depth equals exactly the depth of the uppermost rho level of its cell (searchsorted side='right' on the tie returns kmax: zr[kmax], F[kmax] read)", ""),
     "seed_C18f": ("C18", "grid section omitted + wildcard forcing name whose file-name part starts with * or ? + a hidden (dot) file among the matches that sorts first (glob.glob skips hidden files, Path.glob - used by the forcing module - does not: the grid is read from the second forcing file)",
                   "MISSED by the first run: the wildcard expansion was covered by one bounded scenario only and the contract units used a plain forcing file name. New units configure_v2 x3 / configure_v1 x4 run the real code against a ghost directory (fixed contents: a hidden first match, ordinary matches, no match) under the documented contracts of Path.glob and glob.glob: the grid file must be the first of what the forcing module's own search (Path.glob) matches (deductive detection)"),
+    # round 8 (suffix g)
+    "seed_C02g": ("C02", "forcing split over several int16-packed files with a different scale_factor / add_offset per file + a run crossing a file boundary (packing attributes read for the first file only)", ""),
+    "seed_C04g": ("C14", "[asked for as a change breaking C04; the trigger is outside C04's quantifier and inside C14's] discrete release file listed site by site: at least three release times whose order of first appearance is neither ascending nor descending (groupby(sort=False) + a reverse test on the first and last step only): whole row groups released at another group's step",
+                  "the trigger lies outside C04's quantifier (tables sorted in simulation order) and C04's check is silent (its constructor units are UNDECIDED on the new code shape); it is inside C14's (all permutations of the release rows). MISSED by C14's first run: the independence sweep permuted rows of two release times only; a three-time site-by-site listing was added to `independence_bounded` (bounded detection by C14)"),
+    "seed_C06g": ("C06", "a state that still holds dead particles when Output.write is called: a user forcing module killing particles in update(), or the output module used as a library (compactify dropped from write)", ""),
+    "seed_C07g": ("C07", "sparse layout + a scheduled output time at which no particle is alive, e.g. first release after the start (early return from write: the record is skipped, file boundaries shift)", ""),
+    "seed_C10g": ("C10", "time-reversed run + a release time (or forcing frame) that is not a whole number of dt from the start (time2step rounds up instead of mirroring the floor)", ""),
+    "seed_C14g": ("C03", "[asked for as a change breaking C14; the slip is in the decoding of the forcing time axis and breaks C03 first] forcing time axis in float days (values not exactly representable) + time-varying current + absolute times where a frame lies a fraction of a microsecond below its whole second (array-wise decoding truncates where cftime rounds: the frame lands one step early; which frames depends on the absolute time, so a whole-step shift changes the trajectories)",
+                  "MISSED by the first run: floats are reals for the generator (the truncation is the identity on exact values; the scan units are UNDECIDED on the new helper) and every synthetic file had an integer time axis in seconds. The slip is a forcing-time slip: every eighth case of `forcing_layouts_bounded` is now repeated with a float64 `days since 1970` axis whose epoch makes every third hourly frame fall short (bounded detection by C03's check; C14's own sweep stays on second axes)"),
+    "seed_C19g": ("C06", "[asked for as a change breaking C19; the step protocol is intact, the record time is what breaks: C06] time-reversed run with at least two records (record time from a counter that only counts upwards): the slip of seed_C07b / seed_C06e reached from C19's text",
+                  "refuted by C06's check (deductive: time coordinate of the record) - the step protocol C19 states (order, once per step) is intact under this change and C19's check is silent"),
+    "seed_C20g": ("C20", "time-reversed run whose only release inside the window lies exactly at the stop time (searchsorted side for the reversed slice): the set-up is not refused and runs with zero particles",
+                  "caught by the bounded fault injection; deductively UNDECIDED (Index.searchsorted has no assumed contract)"),
 }
 
 
@@ -115,7 +128,7 @@ def main():
         meta = dict(
             id=sid,
             breaks_property=pid,
-            origin="independent sub-agent, later round (suffix f: round 7, 2026-09-28): given only the property text, a scratch worktree and the instruction to avoid the site used by the first-round seed and to prefer cooperating edits / histories / boundary values (no access to /verif)",
+            origin="independent sub-agent, later round (suffixes f, g: rounds 7 and 8, 2026-09-28): given only the property text, a scratch worktree and the instruction to avoid the site used by the first-round seed and to prefer cooperating edits / histories / boundary values (no access to /verif)",
             needs_to_manifest=needs,
             confirmed={k: v[k] for k in ("demo_exit_with_patch", "demo_exit_without_patch", "tests_with", "tests_without", "demo_says_violated_with_patch", "demo_says_holds_without_patch") if k in v},
             what_i_ran=["tools/verify_seed.sh: git apply patch.diff in a scratch worktree; demo with and without; pytest with and without",
